@@ -10,7 +10,7 @@ RULE = ('PlayingPhase.available_cards on random hands of every size 0..13 x ever
         'state-dependent variants (current_available_cards_in_hand / _in_dummy_hand) at every state of full and observed '
         'play-throughs; RandomPlay.play with random.choice replaced by a recorder (the list it is offered must be the model\'s '
         'set, the card returned must be in it). distinct = distinct (hand, led card) / (board, played set, op).')
-REQUIRED_COUNTERS = {t: ['avail_void', 'avail_follow', 'avail_lead', 'random_play'] for t in ('quick', 'thorough')}
+REQUIRED_COUNTERS = {t: ['avail_void', 'avail_follow', 'avail_lead', 'random_play', 'random_play_from_dummy'] for t in ('quick', 'thorough')}
 SHARDS = {'quick': 1, 'thorough': 8}
 TRUSTED = ['random.choice returns an element of the list it is given (the theorem is for every choice function)']
 ASSUMPTIONS = ['CPython set comprehension semantics']
@@ -83,3 +83,81 @@ def cases(ctx):
     for _ in range(25 if ctx.quick else 200):
         yield Case(pc.gen_board(ctx, rng, revoke_p=0.3))
         yield Case(pc.gen_board(ctx, rng, revoke_p=0.3, mode='obs', me=rng.randrange(4)))
+
+
+def _follow(hand, first):
+    if first is None:
+        return set(hand)
+    same = {c for c in hand if c // 13 == first // 13}
+    return same or set(hand)
+
+
+def extra_checks(ctx):
+    """independent oracle: RandomPlay driven the way the bundled Client drives it — with an ObservedPlayingPhase, from its
+    own hand and (as declarer) from dummy's hand — and through PlayingPhaseWithHands; every choice must be in the
+    follow-suit set of the hand it was given"""
+    import random
+    from bridge_env import Bid, Card, Contract, Hands, Player, Vul
+    from bridge_env.playing_phase import ObservedPlayingPhase, PlayingPhaseWithHands
+    from bridge_env.network_bridge.playing_system import RandomPlay
+    rng = random.Random(f'C06-oracle/{ctx.seed}/{ctx.shard}')
+    P = [Player.N, Player.E, Player.S, Player.W]
+    fails = []
+    for _ in range(12 if ctx.quick else 150):
+        deck = list(range(52))
+        rng.shuffle(deck)
+        deal = [deck[i * 13:(i + 1) * 13] for i in range(4)]
+        decl = rng.randrange(4)
+        dummy = (decl + 2) % 4
+        me = rng.choice([decl, decl, (decl + 1) % 4, dummy, (decl + 3) % 4])
+        contract = Contract(Bid.int_to_bid(rng.randrange(35)), False, False, Vul.NONE, P[decl])
+        obs = ObservedPlayingPhase(contract, P[me], {Card.int_to_card(c) for c in deal[me]})
+        full = PlayingPhaseWithHands(contract, Hands(*[{Card.int_to_card(c) for c in h} for h in deal]))
+        live = [set(h) for h in deal]
+        trick = []
+        ctx.count('_cases')
+        ctx.count('random_play_boards')
+        random.seed(rng.randrange(1 << 30))
+        for n in range(52):
+            a = P.index(full.active_player)
+            first = trick[0] if trick else None
+            want = _follow(live[a], first)
+            chosen = None
+            # who decides? the client of `me` plays its own cards, and dummy's when it is declarer
+            if a == me and me != dummy:
+                chosen = RandomPlay().play(obs.hand, obs)
+                src = 'own hand'
+            elif a == dummy and me == decl and obs.dummy_hand is not None:
+                chosen = RandomPlay().play(obs.dummy_hand, obs)
+                src = "dummy's hand (as declarer)"
+                ctx.count('random_play_from_dummy')
+            if chosen is not None:
+                ctx.count('_evals')
+                if int(chosen) not in want:
+                    fails.append({'key': 'random-play-outside-playable-set', 'kind': 'counterexample',
+                                  'diff': {'from': src, 'chosen': int(chosen), 'playable': sorted(want), 'seat': 'NESW'[a],
+                                           'observer': 'NESW'[me], 'declarer': 'NESW'[decl], 'cards_played': n,
+                                           'deal': deal}})
+                    break
+                card = int(chosen)
+            else:
+                # also through the full-information environment, as a table-side bot would
+                c2 = RandomPlay().play(full.hands[P[a]], full)
+                ctx.count('_evals')
+                if int(c2) not in want:
+                    fails.append({'key': 'random-play-outside-playable-set', 'kind': 'counterexample',
+                                  'diff': {'from': 'PlayingPhaseWithHands', 'chosen': int(c2), 'playable': sorted(want)}})
+                    break
+                card = int(c2)
+            c_obj = Card.int_to_card(card)
+            full.play_card_by_player(c_obj, P[a])
+            obs.play_card_by_player(c_obj, P[a])
+            live[a].discard(card)
+            trick.append(card)
+            if len(trick) == 4:
+                trick = []
+            if n == 0 and me != dummy:
+                obs.set_dummy_hand({Card.int_to_card(c) for c in live[dummy]})
+        if len(fails) > 3:
+            break
+    return fails
